@@ -360,6 +360,11 @@ def run_obl(obl, want_trace_for=None):
         res.msg = "cbmc exceeded %ds" % obl.timeout
         return res
     js = parse_json_ui(out)
+    if "ran out of memory" in out or "Out of memory" in out or "bad_alloc" in out or "bad_alloc" in err:
+        # cbmc --json-ui still prints a result array after the solver runs out of memory; its statuses are meaningless
+        res.status = "OOM"
+        res.msg = "solver ran out of memory under the %d GB cap" % obl.mem_gb
+        return res
     if js is None:
         res.status = "OOM" if ("bad_alloc" in err or "bad_alloc" in out or "Out of memory" in out or rc in (-9, -6, 134, 137)) else "ERROR"
         res.msg = (out[-1500:] + "\n" + err[-1500:])
